@@ -409,7 +409,9 @@ pub fn settle(d: &mut Driver) {
                 step0,
             );
         }
-        d.sim.aborted = true;
+        if d.sim.mon.has_fatal() {
+            d.sim.aborted = true;
+        }
         return;
     }
     let _ = variant_b;
@@ -484,7 +486,9 @@ pub fn settle(d: &mut Driver) {
             0,
             step0,
         );
-        d.sim.aborted = true;
+        if d.sim.mon.has_fatal() {
+            d.sim.aborted = true;
+        }
         return;
     }
     d.sim.mon.stats.inc("c10.fresh_proposal_applied_everywhere");
@@ -600,7 +604,9 @@ pub fn transfer_completion(d: &mut Driver) {
                 lid,
                 d.sim.step,
             );
-            d.sim.aborted = true;
+            if d.sim.mon.has_fatal() {
+                d.sim.aborted = true;
+            }
         }
     }
     let mut f = Fp::new();
